@@ -43,6 +43,13 @@ class Case:
     args: list
     tag: str
     nontrivial: bool = True
+    cmp: str = "eq"      # "eq": results equal; "member": implementation result is one of the '|'-separated spec results
+
+
+def agree(case, impl: str, model: str) -> bool:
+    if case.cmp == "member":
+        return impl in model.split("|")
+    return impl == model
 
 
 @dataclass
@@ -126,8 +133,9 @@ def c01_inputs(ctx):
     """(text, tag, nontrivial) triples around valid IBANs of every country."""
     rng = ctx.rng
     wide = wide_alphabet(ctx)
-    n_valid = 1 if ctx.quick else 6
+    n_valid = 1 if ctx.quick else 2
     n_mut = 12 if ctx.quick else 10 ** 9
+    must = "0Aa-٠ \n"
     for cc in countries(ctx):
         for _ in range(n_valid):
             v = valid_iban(ctx, cc)
@@ -143,7 +151,8 @@ def c01_inputs(ctx):
             if len(positions) * len(wide) > n_mut:
                 pairs = [(rng.choice(positions), rng.choice(wide)) for _ in range(n_mut)]
             else:
-                pairs = [(p, ch) for p in positions for ch in wide]
+                # thorough: every position x (a fixed core + 40 sampled characters of the wide alphabet)
+                pairs = [(p, ch) for p in positions for ch in must + "".join(rng.sample(wide, 40))]
             for p, ch in pairs:
                 m = v[:p] + ch + v[p + 1:]
                 yield m, "mutation", True
@@ -282,7 +291,7 @@ def random_bic(ctx, long=None, strict=False, cc=None):
 def c04_inputs(ctx):
     rng = ctx.rng
     wide = wide_alphabet(ctx)
-    n = 6 if ctx.quick else 60
+    n = 6 if ctx.quick else 40
     for long in (False, True):
         for _ in range(n):
             v = random_bic(ctx, long)
@@ -291,7 +300,7 @@ def c04_inputs(ctx):
             k = rng.randrange(len(v) + 1)
             yield v[:k] + chr(rng.choice(ctx.facts["ws"])) + v[k:], "valid-ws", True
             for p in range(len(v)):
-                chars = wide if not ctx.quick else rng.sample(wide, 10) + ["-", "0", "A", "a", "٠"]
+                chars = rng.sample(wide, 10 if ctx.quick else 60) + ["-", "0", "A", "a", "٠"]
                 for ch in chars:
                     yield v[:p] + ch + v[p + 1:], "mutation", True
             # lengths 0..14
@@ -328,6 +337,41 @@ def c04_streams(ctx):
 
 
 # ------------------------------------------------------------------------------------------------
+# C05
+
+def c05_streams(ctx):
+    for t, tag, nt in c01_inputs(ctx):
+        yield Case("prop", "spec_iban_verdict", [enc(t)], "iban-" + tag, nt, "member")
+        yield Case("corr", "iban_new", [enc(t), "0", "0"], "iban-" + tag, nt)
+        yield Case("corr", "iban_is_valid", [enc(t)], "iban-" + tag, nt)
+        yield Case("corr", "iban_validate", [enc(t), "0"], "iban-" + tag, nt)
+    for t, tag, nt in c04_inputs(ctx):
+        for strict in ("0", "1"):
+            yield Case("prop", "spec_bic_verdict", [enc(t), strict], "bic-" + tag, nt, "member")
+            yield Case("corr", "bic_validate", [enc(t), strict], "bic-" + tag, nt)
+        yield Case("corr", "bic_is_valid", [enc(t)], "bic-" + tag, nt)
+    # multi-defect inputs: several things wrong at once
+    rng = ctx.rng
+    wide = wide_alphabet(ctx)
+    for cc in (countries(ctx) if not ctx.quick else rng.sample(countries(ctx), 30)):
+        v = valid_iban(ctx, cc)
+        for _ in range(6 if ctx.quick else 40):
+            t = list(v)
+            for _k in range(rng.randrange(2, 5)):
+                op = rng.randrange(3)
+                p = rng.randrange(len(t)) if t else 0
+                if op == 0 and t:
+                    t[p] = rng.choice(wide)
+                elif op == 1 and t:
+                    del t[p]
+                else:
+                    t.insert(p, rng.choice(wide))
+            t = "".join(t)
+            yield Case("prop", "spec_iban_verdict", [enc(t)], "iban-multi-defect", True, "member")
+            yield Case("corr", "iban_new", [enc(t), "0", "0"], "iban-multi-defect", True)
+
+
+# ------------------------------------------------------------------------------------------------
 # known findings
 
 def match_known(v: dict, known: list):
@@ -358,6 +402,13 @@ PREDICATES = {}
 
 
 REGISTRY = {
+    "C05": {
+        "streams": c05_streams,
+        "rule": "the C01 and C04 input families plus multi-defect mutations (2-4 random edits of a valid IBAN); per text the "
+                "implementation's constructor outcome, validate() and is_valid must be: ACCEPT iff the spec accepts, else a "
+                "library error whose class is among the defects the extracted Spec/Defects.v finds present; a foreign "
+                "exception or an is_valid/constructor disagreement is a violation; plus outcome-class correspondence with the model",
+    },
     "C04": {
         "streams": c04_streams,
         "rule": "valid 8- and 11-character BICs over pycountry's codes; every position x wide alphabet (sampled in quick); "
